@@ -8,15 +8,21 @@
 //!                                              results of suggest_correct_spelling; answer = the lints (span + suggestions)
 //!   F m d exact exact_lower                    the facts SpellCheck::lint reads for one word token; answer = accepted?
 //!   W                                          the Coq witness of F24 replayed on a MutableDictionary with the same entries
+//!   R name lo-hi ..                            range table of a Unicode predicate of the lexer model (ws num alpha ling)
+//!   T src                                      the text alone: the model (C02's Lexer.v + Condense.v through C06Words.doc_words)
+//!                                              must compute the implementation's Word-token spans
+//!   O w                                        C06Words.one_word: is `w`, alone, exactly one Word token covering it?
+//!   A cp                                       the flags Tables_f24.f24_alphabet gives a character of the generated table
 //! Search (the property text, ground truth = Dictionary::words_iter of the curated dictionary): every listed word
 //! alone / capitalised / upper-cased / inside generated sentences x 4 dialects is not reported (except the committed
 //! F24 list of multi-token entries, which must be matched exactly); letter strings the dictionary does not contain are
 //! reported with exactly their span; every suggestion is a dictionary word of the dialect (up to its first letter).
 use harper_core::linting::{Lint, LintGroup, LintKind, Linter, SpellCheck, Suggestion};
 use harper_core::spell::suggest_correct_spelling;
+use harper_core::parsers::{Parser, PlainEnglish};
 use harper_core::{
-    CharStringExt, Dialect, Dictionary, Document, FstDictionary, MutableDictionary, TokenKind, TokenStringExt, WordId,
-    WordMetadata,
+    CharStringExt, Dialect, Dictionary, Document, FstDictionary, MutableDictionary, Punctuation, TokenKind, TokenStringExt,
+    WordId, WordMetadata,
 };
 use hv::common::*;
 use serde_json::{json, Value};
@@ -25,6 +31,9 @@ use std::sync::Arc;
 
 const DIALECTS: [Dialect; 4] = [Dialect::American, Dialect::Canadian, Dialect::Australian, Dialect::British];
 const F24_LIST: &str = concat!(env!("CARGO_MANIFEST_DIR"), "/../corpus/C06/f24_list.json");
+/// the curated entries that are NOT one Word token when written alone: source of coq/Model/Tables_f24.v
+/// (tools/tables/f24.py) — theorem C06_f24_entries_not_one_word; must equal what the implementation does, exactly
+const MULTI_LIST: &str = concat!(env!("CARGO_MANIFEST_DIR"), "/../corpus/C06/multi_token_entries.json");
 
 fn dname(d: Dialect) -> &'static str {
     match d {
@@ -152,6 +161,8 @@ struct Ctx {
     single: HashMap<String, bool>,               // entry -> lexes + condenses to exactly one Word token
     f24: HashMap<(String, u8), String>,          // committed list: (entry, dialect code) -> contexts in which it is reported
     f24_seen: HashMap<(String, u8), String>,
+    multi_committed: BTreeSet<String>,           // corpus/C06/multi_token_entries.json
+    t_seen: HashSet<Vec<char>>,                  // texts already sent as a T case
     ids: HashMap<WordId, String>,                // WordId -> key (collision monitor)
     id_collisions: u64,
     fz: HashMap<Vec<char>, Vec<(u8, Vec<Vec<char>>)>>,
@@ -185,9 +196,19 @@ impl Ctx {
                 }
             }
         }
+        let mut multi_committed = BTreeSet::new();
+        for v in hv::load_inputs(MULTI_LIST) {
+            if v["kind"] == "multi_token_entries" {
+                for e in v["entries"].as_array().cloned().unwrap_or_default() {
+                    multi_committed.insert(e.as_str().unwrap_or("").to_string());
+                }
+            }
+        }
         Ctx {
             dict,
             checkers,
+            multi_committed,
+            t_seen: HashSet::new(),
             words,
             listed,
             keys,
@@ -217,6 +238,19 @@ impl Ctx {
         .unwrap_or(false);
         self.single.insert(entry.to_string(), b);
         b
+    }
+
+    /// correspondence for the tokenisation: the model lexer must find the same Word tokens in `src` (once per text)
+    fn emit_words(&mut self, rep: &mut Report, src: &[char], words: &[(usize, usize)]) {
+        if self.t_seen.len() < 4_000_000 && self.t_seen.insert(src.to_vec()) {
+            let sp = spans_str(words);
+            rep.case(&format!("T {}", cps(src)), if sp.is_empty() { "-" } else { &sp });
+        }
+    }
+
+    fn emit_one_word(&mut self, rep: &mut Report, entry: &str) {
+        let b = self.is_single(entry);
+        rep.case(&format!("O {}", cps(&chars(entry))), if b { "1" } else { "0" });
     }
 
     fn compat(&self, entry: &str, d: Dialect) -> Option<bool> {
@@ -332,6 +366,7 @@ fn emit_case(cx: &mut Ctx, rep: &mut Report, r: &mut Rng, d: Dialect, run: &Run)
     }
     let line = format!("L {} | {} | {} | {} | {}", dcode(Some(d)), cps(&run.src), spans_str(&run.words), entries_str(&entries), fuzzy_str(&fz));
     rep.case(&line, &lints_line(&run.lints));
+    cx.emit_words(rep, &run.src, &run.words);
     cx.t_emit += t0.elapsed().as_secs_f64();
 }
 
@@ -770,7 +805,7 @@ fn random_mini(r: &mut Rng) -> (Vec<(String, Option<Dialect>)>, Dialect, String)
 // ---------- corpus / replay ----------
 fn replay_input(cx: &mut Ctx, rep: &mut Report, r: &mut Rng, v: &Value) {
     match v["kind"].as_str().unwrap_or("") {
-        "f24" => {} // the committed list: read at start-up
+        "f24" | "multi_token_entries" => {} // the committed lists: read at start-up
         "mini" | "witness" => {
             let entries: Vec<(String, Option<Dialect>)> = v["dict"].as_array().cloned().unwrap_or_default().iter().map(|e| (e[0].as_str().unwrap_or("").to_string(), e[1].as_str().and_then(dialect_of))).collect();
             let d = v["dialect"].as_str().and_then(dialect_of).unwrap_or(Dialect::American);
@@ -1032,10 +1067,95 @@ fn multi_token_entry(cx: &mut Ctx, rep: &mut Report, r: &mut Rng, w: &[char]) {
 }
 
 fn listed_entry(cx: &mut Ctx, rep: &mut Report, r: &mut Rng, w: &[char], corr: bool, case_forms: bool) {
+    if corr || !cx.is_single(&s_of(w)) {
+        cx.emit_one_word(rep, &s_of(w));
+    }
     if cx.is_single(&s_of(w)) {
         listed_forms(cx, rep, r, w, corr, case_forms);
     } else {
         multi_token_entry(cx, rep, r, w);
+    }
+}
+
+
+// ---------- the Unicode predicates of the lexer model (C02's Lexer.uni) ----------
+fn ranges(pred: impl Fn(char) -> bool) -> Vec<(u32, u32)> {
+    let mut out: Vec<(u32, u32)> = vec![];
+    let mut cur: Option<(u32, u32)> = None;
+    for cp in 0..=0x10FFFFu32 {
+        let v = char::from_u32(cp).map(|c| pred(c)).unwrap_or(false);
+        match (v, cur) {
+            (true, Some((a, _))) => cur = Some((a, cp)),
+            (true, None) => cur = Some((cp, cp)),
+            (false, Some(r)) => {
+                out.push(r);
+                cur = None
+            }
+            (false, None) => {}
+        }
+    }
+    if let Some(r) = cur {
+        out.push(r);
+    }
+    out
+}
+
+/// CharExt::is_english_lingual is private; on the one-character text [c] the lexer answers Word exactly when
+/// lex_word accepts c, i.e. when c is lingual (ASCII digits are taken by lex_number before) — as in c02.rs
+fn observed_lingual(c: char) -> bool {
+    if !c.is_alphabetic() {
+        return false;
+    }
+    let t = PlainEnglish.parse(&[c]);
+    t.len() == 1 && matches!(t[0].kind, TokenKind::Word(_))
+}
+
+/// R lines (the model lexer runs on Rust's own tables) + the hypothesis `letter_laws` of the one-word
+/// characterisation (C06WordsProofs), over every scalar value
+fn lexer_unicode(rep: &mut Report) {
+    let ling = ranges(observed_lingual);
+    let tabs: Vec<(&str, Vec<(u32, u32)>)> =
+        vec![("ws", ranges(|c| c.is_whitespace())), ("num", ranges(|c| c.is_numeric())), ("alpha", ranges(|c| c.is_alphabetic())), ("ling", ling.clone())];
+    for (name, rs) in &tabs {
+        let line = format!("R {name} {}", rs.iter().map(|(a, b)| format!("{a}-{b}")).collect::<Vec<_>>().join(" "));
+        rep.case(line.trim(), &format!("R {name} {}", rs.len()));
+    }
+    let is_ling = |cp: u32| ling.binary_search_by(|(a, b)| if cp < *a { std::cmp::Ordering::Greater } else if cp > *b { std::cmp::Ordering::Less } else { std::cmp::Ordering::Equal }).is_ok();
+    let mut bad: Vec<(&str, u32)> = vec![];
+    let mut n_ling = 0u64;
+    for cp in 0..=0x10FFFFu32 {
+        let Some(c) = char::from_u32(cp) else { continue };
+        let l = is_ling(cp);
+        if l {
+            n_ling += 1;
+            if !c.is_alphabetic() {
+                bad.push(("lingual_is_alphabetic", cp));
+            }
+            if c.is_numeric() {
+                bad.push(("lingual_not_numeric", cp));
+            }
+            if Punctuation::from_char(c).is_some() {
+                bad.push(("lingual_not_punctuation", cp));
+            }
+            if matches!(c, '"' | '\u{201C}' | '\u{201D}') {
+                bad.push(("lingual_not_quote", cp));
+            }
+            if matches!(cp, 9 | 10 | 32) {
+                bad.push(("lingual_not_blank", cp));
+            }
+        }
+        if l && c.is_ascii_digit() {
+            bad.push(("lingual_not_ascii_digit", cp));
+        }
+        if matches!(c, '\'' | '\u{2019}') && (c.is_alphanumeric() || l || Punctuation::from_char(c) != Some(Punctuation::Apostrophe)) {
+            bad.push(("apostrophe_not_alphanumeric", cp));
+        }
+    }
+    rep.monitor("letter_laws:code_points_checked", 0x110000 - 0x800);
+    rep.monitor("letter_laws:lingual_characters", n_ling);
+    rep.monitor("letter_laws:violations", bad.len() as u64);
+    for (law, cp) in bad.iter().take(20) {
+        rep.fail("monitor_letter_laws", format!("law {law} of letter_laws (C06WordsProofs.v) fails at U+{cp:04X}"), json!({"kind":"text","text":char::from_u32(*cp).unwrap().to_string()}));
     }
 }
 
@@ -1070,9 +1190,20 @@ fn main() {
     rep.monitor("lower_fix:violations", lower_fix_bad);
     rep.monitor("uc_nonempty:violations", uc_empty);
     rep.extra.insert("unicode_table_lines".into(), json!(n_u));
+    lexer_unicode(&mut rep);
 
     let mut cx = Ctx::new();
     let nwords = cx.words.len();
+    {
+        // the Unicode flags the generated table (Tables_f24.f24_alphabet, written by tools/tables/f24.py) gives the
+        // characters of its entries must be Rust's
+        let alpha: BTreeSet<char> = cx.multi_committed.iter().flat_map(|e| e.chars()).collect();
+        for c in &alpha {
+            let fl = format!("{}{}{}{}", c.is_whitespace() as u8, c.is_numeric() as u8, c.is_alphabetic() as u8, observed_lingual(*c) as u8);
+            rep.case(&format!("A {}", *c as u32), &fl);
+        }
+        rep.monitor("f24_table:alphabet_characters_checked", alpha.len() as u64);
+    }
     rep.extra.insert("dictionary_words".into(), json!(nwords));
     {
         use std::hash::{Hash, Hasher};
@@ -1158,8 +1289,10 @@ fn main() {
     let sample_n = args.scale(10_000, nwords);
     let stride_pick: HashSet<usize> = if args.thorough() { (0..nwords).collect() } else { (0..sample_n).map(|_| r.below(nwords)).collect() };
     let words = cx.words.clone();
+    let mut rep_cut = false;
     for (i, w) in words.iter().enumerate() {
         if i % 64 == 0 && enough(&mut rep) {
+            rep_cut = true;
             break;
         }
         let sampled = stride_pick.contains(&i);
@@ -1175,6 +1308,22 @@ fn main() {
             if !is_lower_entry(w) {
                 rep.count("listed:not_lower_case");
             }
+        }
+    }
+    // exactness of the table of multi-token entries (source of Tables_f24.v / theorem C06_f24_entries_not_one_word)
+    if !rep_cut {
+        let multi: BTreeSet<String> = words.iter().map(|w| s_of(w)).filter(|e| cx.single.get(e) == Some(&false)).collect();
+        rep.extra.insert("multi_token_entries".into(), json!(multi.len()));
+        rep.monitor("f24_table:entries_in_table", cx.multi_committed.len() as u64);
+        rep.monitor("f24_table:curated_entries_tokenised", words.iter().filter(|w| cx.single.contains_key(&s_of(w))).count() as u64);
+        for e in multi.difference(&cx.multi_committed) {
+            rep.fail("f24_table_differs", format!("dictionary entry {:?} is not one Word token when written alone but the committed table corpus/C06/multi_token_entries.json (Tables_f24.v) does not have it", e), json!({"kind":"listed","word":e}));
+        }
+        for e in cx.multi_committed.difference(&multi) {
+            rep.fail("f24_table_differs", format!("the committed table corpus/C06/multi_token_entries.json (Tables_f24.v) has {:?}, which the implementation {}", e, if cx.listed.contains_key(e) { "cuts into exactly one Word token" } else { "does not list any more" }), json!({"kind":"listed","word":e}));
+        }
+        if let Ok(path) = std::env::var("C06_DUMP_MULTI") {
+            std::fs::write(path, serde_json::to_string_pretty(&json!({"inputs":[{"kind":"multi_token_entries","entries":multi}]})).unwrap()).unwrap();
         }
     }
     // exactness of the committed F24 list
